@@ -7,9 +7,9 @@ import (
 	"io"
 	"net"
 	"net/http"
-	"sync"
 	"strconv"
 	"strings"
+	"sync"
 	"time"
 
 	"github.com/nextdns/nextdns/resolver"
@@ -65,7 +65,6 @@ func runPost(payload []byte) string {
 		return "TIMEOUT"
 	}
 }
-
 
 // post53 <payload>: the same over the plain-DNS path - query.New, then the real resolver.DNS -> manager -> DNS53.resolve to a
 // loopback UDP server; the canonical output is the datagram that server received.
@@ -452,6 +451,7 @@ func init() {
 	areas["ecs"] = func(c *Ctx) error {
 		r := NewRng(c.seed)
 		run := func(l string) {
+			c.Note(l)
 			f := strings.Fields(l)
 			switch {
 			case len(f) == 2 && f[0] == "post":
